@@ -24,6 +24,7 @@
 #include <signal.h>
 #include "mjson.h"
 #include "vclock.h"
+#include "lockrec.h"
 
 #define NBUF 2
 #define NCB 2
@@ -36,6 +37,13 @@ static int wa, wb, cbmode;
 static char *pats[MAXPAT]; static size_t patlen[MAXPAT]; static int npat;
 static char inv_msg[512];
 static int sock[2];
+static int lockcb;      /* cfg "lockcb": bracket user callbacks in the lock trace (they run under the evbuffer's own lock by design) */
+static struct evbuffer *new_buffer(void)
+{
+	struct evbuffer *b = evbuffer_new();
+	if (b && lr_on) evbuffer_enable_locking(b, NULL);   /* $VERIF_LOCKTRACE: every evbuffer gets a (recording) lock */
+	return b;
+}
 
 /* ------------------------------------------------------------ allocation faults (C14) */
 static long alloc_count, alloc_fail_at;     /* fail the alloc_fail_at-th allocation (1-based); 0 = never */
@@ -188,6 +196,7 @@ static unsigned long cksum(const unsigned char *m, size_t n) { unsigned long h =
 static void ref_cleanup(const void *data, size_t datalen, void *extra)
 {
 	struct region *r = extra;
+	if (lockcb) lockrec_cb_enter();
 	r->cleanups++;
 	if (data != r->mem || datalen != r->len) ref_bad++;
 	if (cksum(r->mem, r->len) != r->sum) ref_bad++;
@@ -195,6 +204,7 @@ static void ref_cleanup(const void *data, size_t datalen, void *extra)
 	 * region are still in some buffer shows up as wrong content */
 	memset(r->mem, 'Z', r->len);
 	r->live = 0;
+	if (lockcb) lockrec_cb_exit();
 }
 static void check_regions(void)
 {
@@ -208,7 +218,9 @@ static int nsegs;
 static void seg_cleanup(struct evbuffer_file_segment const *seg, int flags, void *arg)
 {
 	struct segrec *s = arg;
+	if (lockcb) lockrec_cb_enter();
 	s->cleanups++;
+	if (lockcb) lockrec_cb_exit();
 }
 
 /* ------------------------------------------------------------ chain validator */
@@ -259,14 +271,23 @@ static char *chain_content(struct evbuffer *buf, size_t *lenp)
 
 /* ------------------------------------------------------------ evbuffer callbacks (C13) */
 static struct evbuffer_cb_entry *cbent[NBUF + 1][NCB + 1];
+static int cbscript[NBUF + 1][NCB + 1], cbleft[NBUF + 1][NCB + 1];   /* 1 drainall, 2 adda; invocations left */
 static char cblog[1 << 16]; static size_t cblen; static int cbfirst;
 static void evb_cb(struct evbuffer *buf, const struct evbuffer_cb_info *info, void *arg)
 {
 	int code = (int)(intptr_t)arg;
+	if (lockcb) lockrec_cb_enter();
 	cblen += snprintf(cblog + cblen, sizeof(cblog) - cblen,
 	    "%s{\"b\":%d,\"cb\":%d,\"o\":%zu,\"a\":%zu,\"d\":%zu,\"l\":%zu}", cbfirst ? "" : ",",
 	    code / 10, code % 10, info->orig_size, info->n_added, info->n_deleted, evbuffer_get_length(buf));
 	cbfirst = 0;
+	/* the callback's script: modify the buffer it is registered on, from inside the callback */
+	if (cbscript[code / 10][code % 10] && cbleft[code / 10][code % 10] > 0) {
+		cbleft[code / 10][code % 10]--;
+		if (cbscript[code / 10][code % 10] == 1) evbuffer_drain(buf, (size_t)1 << 40);
+		else { char *m = malloc((size_t)wa); memset(m, 'a', (size_t)wa); evbuffer_add(buf, m, (size_t)wa); free(m); }
+	}
+	if (lockcb) lockrec_cb_exit();
 }
 
 /* ------------------------------------------------------------ the query battery */
@@ -368,7 +389,9 @@ static void print_obs_tail(void)
 {
 	int b;
 	fprintf(out, ",\"q\":[");
+	lockrec_api_enter("observe");
 	for (b = 1; b <= NBUF; b++) { if (b > 1) fputc(',', out); battery(b); }
+	lockrec_api_return("observe");
 	fprintf(out, "]");
 	if (cbmode) fprintf(out, ",\"cb\":[%s]", cblog);
 	check_regions();
@@ -395,6 +418,7 @@ static void exec_op(jval *op)
 	cblen = 0; cbfirst = 1; cblog[0] = 0; inv_msg[0] = 0;
 	fprintf(out, "{");
 	alloc_armed = 1;
+	lockrec_api_enter(a);
 	if (!strcmp(a, "add")) r = evbuffer_add(B[b], d, dl);
 	else if (!strcmp(a, "prepend")) r = evbuffer_prepend(B[b], d, dl);
 	else if (!strcmp(a, "printf")) r = evbuffer_add_printf(B[b], "%s", d);
@@ -456,6 +480,31 @@ static void exec_op(jval *op)
 			/* on failure the library has already dropped the caller's reference (as evbuffer_add_file relies on) */
 			if (r == 0) evbuffer_file_segment_free(seg);
 		}
+	} else if (!strcmp(a, "addfilebad")) {
+		/* a lazily materialised segment (sendfile-capable, so nothing is read at creation) added to a plain evbuffer:
+		 * materialisation happens inside evbuffer_add_file_segment and FAILS: m 0 fd closed, 1 fd write-only,
+		 * 2 file truncated (mmap disabled), 3 fd closed (mmap disabled) */
+		char path[] = "/verif/out/tmp/evbbadXXXXXX";
+		int fd, m = (int)j_int(op, "m", 0);
+		struct evbuffer_file_segment *seg;
+		struct segrec *sr = &segs[nsegs];
+		alloc_armed = 0;
+		fd = mkstemp(path);
+		if (fd < 0) { perror("mkstemp"); exit(3); }
+		if (write(fd, d, dl) != (ssize_t)dl) { perror("write"); exit(3); }
+		if (m == 1) { close(fd); fd = open(path, O_WRONLY); }
+		unlink(path);
+		alloc_armed = 1;
+		seg = evbuffer_file_segment_new(fd, 0, (ev_off_t)dl, (m == 1 || m == 2 ? EVBUF_FS_CLOSE_ON_FREE : 0) | (m >= 2 ? EVBUF_FS_DISABLE_MMAP : 0));
+		if (!seg) { r = -1; close(fd); }
+		else {
+			sr->cleanups = 0; sr->id = nsegs; sr->fd = fd; nsegs++;
+			evbuffer_file_segment_add_cleanup_cb(seg, seg_cleanup, sr);
+			if (m == 0 || m == 3) close(fd);
+			if (m == 2 && ftruncate(fd, 0) < 0) { perror("ftruncate"); exit(3); }
+			r = evbuffer_add_file_segment(B[b], seg, 0, -1);
+			if (r == 0) evbuffer_file_segment_free(seg);
+		}
 	} else if (!strcmp(a, "evread") || !strcmp(a, "evwrite") || !strcmp(a, "sfwrite")) {
 		long long hm = j_int(op, "hm", -1), kb = j_int(op, "kb", -1), e = j_int(op, "e", 0);
 		struct evbuffer *wb_ = B[b];
@@ -470,7 +519,7 @@ static void exec_op(jval *op)
 			if (sfd < 0) { perror("mkstemp"); exit(3); }
 			unlink(path);
 			if (write(sfd, d, dl) != (ssize_t)dl) { perror("write"); exit(3); }
-			wb_ = evbuffer_new();
+			wb_ = new_buffer();
 			evbuffer_set_flags(wb_, EVBUFFER_FLAG_DRAINS_TO_FD);
 			seg = evbuffer_file_segment_new(sfd, 0, -1, EVBUF_FS_CLOSE_ON_FREE);
 			if (!seg || evbuffer_add_file_segment(wb_, seg, (ev_off_t)j_int(op, "ob", 0), -1) < 0) { fprintf(stderr, "sfwrite setup failed\n"); exit(3); }
@@ -520,7 +569,12 @@ static void exec_op(jval *op)
 	else if (!strcmp(a, "cbadd")) {
 		int k = (int)j_int(op, "k", 1);
 		cbent[b][k] = evbuffer_add_cb(B[b], evb_cb, (void *)(intptr_t)(b * 10 + k));
+		cbscript[b][k] = cbleft[b][k] = 0;
 		r = cbent[b][k] ? 0 : -1;
+	} else if (!strcmp(a, "cbscript")) {
+		int k = (int)j_int(op, "k", 1);
+		cbscript[b][k] = !strcmp(j_str(op, "sc", ""), "drainall") ? 1 : 2; cbleft[b][k] = 1;
+		r = 0;
 	} else if (!strcmp(a, "cbdel")) {
 		int k = (int)j_int(op, "k", 1);
 		if (!cbent[b][k]) r = -96; else { r = evbuffer_remove_cb_entry(B[b], cbent[b][k]); cbent[b][k] = NULL; }
@@ -532,6 +586,7 @@ static void exec_op(jval *op)
 		r = event_base_loop(base, EVLOOP_NONBLOCK);
 		if (r == 1) r = 0; /* "no events registered" is not an error here */
 	} else fprintf(stderr, "unknown op %s\n", a);
+	lockrec_api_return(a);
 	alloc_armed = 0;
 	fprintf(out, "\"r\":%ld", r);
 	print_obs_tail();
@@ -549,17 +604,19 @@ static void run_scenario(jval *sc)
 
 	wa = (int)j_int(cfg, "wa", 1); wb = (int)j_int(cfg, "wb", 1);
 	cbmode = (int)j_int(cfg, "cbmode", 0);
+	lockcb = (int)j_int(cfg, "lockcb", 0);
+	lockrec_reset(j_str(cfg, "sid", "0"));
 	alloc_fail_at = j_int(cfg, "failn", 0); alloc_count = 0; alloc_failed = 0; alloc_armed = 0;
 	npat = 0;
 	for (k = 0; pl && k < pl->n && npat < MAXPAT; k++) pats[npat] = expand(pl->items[k], &patlen[npat]), npat++;
 	nregions = nsegs = ref_bad = 0;
-	memset(cbent, 0, sizeof cbent);
+	memset(cbent, 0, sizeof cbent); memset(cbscript, 0, sizeof cbscript); memset(cbleft, 0, sizeof cbleft);
 	base = NULL;
 	if (socketpair(AF_UNIX, SOCK_STREAM, 0, sock) < 0) { perror("socketpair"); exit(3); }
 	evutil_make_socket_nonblocking(sock[0]); evutil_make_socket_nonblocking(sock[1]);
 	if (cbmode == 2) { vt_now_ns = 1000LL * 1000000000LL; base = event_base_new(); }
 	for (b = 1; b <= NBUF; b++) {
-		B[b] = evbuffer_new();
+		B[b] = new_buffer();
 		if (cbmode == 2) evbuffer_defer_callbacks(B[b], base);
 	}
 	fprintf(out, "{\"obs\":[");
@@ -572,8 +629,10 @@ static void run_scenario(jval *sc)
 	}
 	fprintf(out, "],\"allocs\":%ld", alloc_count);
 	/* teardown: free the buffers; every reference must be cleaned exactly once by now */
+	lockrec_api_enter("teardown");
 	for (b = 1; b <= NBUF; b++) evbuffer_free(B[b]);
 	if (base) { event_base_loop(base, EVLOOP_NONBLOCK); event_base_free(base); base = NULL; }
+	lockrec_api_return("teardown");
 	{
 		int bad = ref_bad, notclean = 0;
 		check_regions();
@@ -590,6 +649,7 @@ int main(int argc, char **argv)
 {
 	char *line;
 	out = stdout;
+	lockrec_install();      /* no-op unless $VERIF_LOCKTRACE is set */
 	event_set_mem_functions(f_malloc, f_realloc, f_free);
 	event_set_log_callback(quiet_log);
 	signal(SIGPIPE, SIG_IGN);
